@@ -25,14 +25,17 @@ theorem editorIndentOpts_regenerated (h : Gen.Code.editorIndentOpts_extracted = 
          editorApplyParagraphsOpts_regenerated cx (by decide) hd hpos, edit_regenerated cx (by decide),
          editorWithOptions_regenerated cx (by decide), editorString_regenerated cx (by decide), pure_bind]
        go_norm
-       split
-       · rfl
-       · refine bind_congr (m := R) fun indent => ?_
-         split
-         · simp only [bind_pure, Go.edApplyParagraphsOpts, Editor.applyOpts, Go.edit, Editor.withOpts]
-           all_goals rfl
-         · simp only [bind_pure, Editor.applyOpts]
-           all_goals rfl)
+       -- both guards are decided by cases (either polarity, early return or nesting)
+       by_cases hl : level < 1
+       · have hl' : ¬ 1 ≤ level := by omega
+         go_guards [hl, hl']
+       · have hl' : 1 ≤ level := by omega
+         go_guards [hl, hl']
+         refine bind_congr (m := R) fun indent => ?_
+         cases hp : (o.withDefaults cx).preservePara <;>
+           simp only [hp, Bool.not_true, Bool.not_false, Bool.false_eq_true, if_true, if_false, ↓reduceIte, bind_pure,
+             Go.edApplyParagraphsOpts, Editor.applyOpts, Go.edit, Editor.withOpts] <;>
+           rfl)
 
 theorem editorIndent_regenerated (h : Gen.Code.editorIndent_extracted = true)
     (hd : DefaultsOk cx) (hpos : ∀ a, 0 < cx.blen a) (ed : Editor α) (level : Int) :
